@@ -7,7 +7,7 @@ from . import run
 from .build import VERIF
 
 HARNESS = os.path.join(VERIF, 'harness')
-KINDS = ['EQ', 'NE', 'GT', 'LT']
+KINDS = ['EQ', 'NE', 'GT', 'LT', 'SEQ', 'SNE', 'SGT', 'SLT']
 
 EXEC_ENV = {
     'ASAN_OPTIONS': 'abort_on_error=0:detect_leaks=0:halt_on_error=1:exitcode=77:detect_stack_use_after_return=1',
@@ -43,8 +43,12 @@ def run_inputs(exe, d, facts, vecs, timeout=20, leak=False):
     obs = Obs()
     ff = os.path.join(d, 'facts.txt')
     with open(ff, 'w') as f:
-        for pid, kind, k in facts:
-            f.write('%d %s %d\n' % (pid, KINDS[kind], k))
+        for fact in facts:
+            pid, kind, k = fact[0], fact[1], fact[2]
+            if kind >= 4:
+                f.write('%d %s %d:%d\n' % (pid, KINDS[kind], fact[3], k))      # symbolic: ref probe : delta
+            else:
+                f.write('%d %s %d\n' % (pid, KINDS[kind], k))
     for i, vec in enumerate(vecs):
         out = os.path.join(d, 'out%d.txt' % i)
         if os.path.exists(out):
@@ -83,7 +87,7 @@ def run_inputs(exe, d, facts, vecs, timeout=20, leak=False):
                     o[4] = max(o[4], mx)
                     o[5] |= dist
             elif p[0] == 'F':
-                key = (int(p[1]), int(p[2]), int(p[5]))
+                key = (int(p[1]), int(p[2]), int(p[5])) if int(p[2]) < 4 else (int(p[1]), int(p[2]), int(p[5]), int(p[7]))
                 hits, viol, bad = int(p[3]), int(p[4]), int(p[6])
                 o = obs.facts.get(key)
                 if o is None:
@@ -94,6 +98,39 @@ def run_inputs(exe, d, facts, vecs, timeout=20, leak=False):
                         o[2], o[3] = bad, vec
                     o[1] += viol
     return obs
+
+
+def symbolic_facts_for_token(tok, values, tok_by_id, probe_at):
+    """known/impossible symbolic relations of a dump token to another *probed* token:
+    list of (kind_index 4..7, delta, ref probe id, description)"""
+    out = []
+    if not tok.values:
+        return out
+    for v in values.get(tok.values, []):
+        if 'symbolic' not in v or v.get('path', '0') != '0' or int(v.get('indirect', '0')) != 0:
+            continue
+        ref = tok_by_id.get(v['symbolic'])
+        if ref is None:
+            continue
+        rp = probe_at.get((ref.line, ref.col))
+        if rp is None or (ref.line, ref.col) >= (tok.line, tok.col):
+            continue    # only relations to an expression that is evaluated earlier in the text
+        try:
+            d = int(v.get('symbolic-delta', '0'))
+        except ValueError:
+            continue
+        where = '%s@%d:%d' % (ref.str, ref.line, ref.col)
+        if v.get('known') == 'true':
+            out.append((4, d, rp, 'known == %s%+d' % (where, d)))
+        elif v.get('impossible') == 'true':
+            b = v.get('bound', 'Point')
+            if b == 'Point':
+                out.append((5, d, rp, 'impossible == %s%+d' % (where, d)))
+            elif b == 'Upper':
+                out.append((6, d, rp, 'impossible <= %s%+d' % (where, d)))
+            elif b == 'Lower':
+                out.append((7, d, rp, 'impossible >= %s%+d' % (where, d)))
+    return out
 
 
 def int_facts_for_token(tok, values, want_indirect=0, attr='intvalue'):
